@@ -53,7 +53,7 @@ pub fn prepare_call(
 		bail!(TooManyArgsFunctionHas(params.len(), params))
 	}
 
-	let expected_defaults = params.len() - unnamed - named.len();
+	let expected_defaults = params.len().saturating_sub(unnamed + named.len());
 	let mut ops = PreparedCall {
 		named: Vec::with_capacity(named.len()),
 		defaults: Vec::with_capacity(expected_defaults),
